@@ -3,6 +3,7 @@
    frame bound.  C05 / C11 are imported qualified (their models reuse names such as [frame]). *)
 From Coq Require Import Lia.
 From RM Require Import C08.Model C08.Proofs C03.Model C03.Proofs.
+From RM Require Import C03.FetchModel C03.ProcessModel C03.ProcessProofs.
 (* c11_func_sound / c11_line_sound are `exact func_sound` / `exact line_sound` of C11.Proofs5, and C05's c03_frame_bound is
    `frame_bound` of C05.Proofs: the lemmas are imported from the proof files, so that this build does not depend on the
    other owners' Properties.v (still being extended). *)
@@ -63,4 +64,45 @@ Proof.
   unfold contains in Hc. apply andb_prop in Hc. destruct Hc as [Hc _]. apply Z.leb_le in Hc.
   destruct (Hm m (nth_error_In _ _ Hn)) as [Hb _].
   eapply frame_of_ok; eauto; lia.
+Qed.
+
+(* ------------------------------------------------------------------ round 5: the whole thread list, walked and rendered *)
+Lemma Forall2_in_r {A B} (P : A -> B -> Prop) l r y : Forall2 P l r -> In y r -> exists x, In x l /\ P x y.
+Proof.
+  induction 1 as [|a b l r Hab HF IH]; intros Hy; [destruct Hy|].
+  destruct Hy as [Hy|Hy]; [subst; exists a; split; [left; reflexivity|exact Hab]|].
+  destruct (IH Hy) as [x [Hx Px]]. exists x. split; [right; exact Hx|exact Px].
+Qed.
+
+(* into_process_state over the whole thread list returns (no Panic, no OutOfFuel with the fuel |chosen stack| + 3 per thread);
+   every call stack satisfies [thread_post] (frame bound for the memory chosen for it, context frame first);
+   `threads[requesting_thread]` is in bounds; and EVERY frame of EVERY thread goes through the printers' arithmetic
+   without a trap: module offset and unloaded-module offsets for any module lists, function / source-line offsets for
+   whatever SymbolFile::fill_symbol (C11) returned for the frame inside the module the C08 lookup found. *)
+Lemma process_total p cpu a os module_at mma cfi_walk iv pi :
+  C05.Proofs.arch_ok a -> input_ok a pi -> cfi_contract a cfi_walk ->
+  exists outs,
+    process_threads p cpu a os module_at mma cfi_walk iv pi = Ret (outs, requesting_index pi) /\
+    Forall2 (thread_post pi) (pi_threads pi) outs /\
+    (exists r, requesting_stack p cpu a os module_at mma cfi_walk iv pi = Ret r) /\
+    forall o f, In o outs -> In f (o_frames o) ->
+      forall pr q rf mods, wf_mods mods -> C11.Proofs2.wf_file rf ->
+        (exists x, module_offset pr mods (C05.Model.f_instr f) = Ret x) /\
+        (exists l, unloaded_offsets pr mods (C05.Model.f_instr f) = Ret l) /\
+        forall i m so,
+          rm_get (module_table mods) (C05.Model.f_instr f) = Some i -> nth_error mods (Z.to_nat i) = Some m ->
+          C11.Model.symbolize q rf (fst m) (C05.Model.f_instr f) = Ret so ->
+          (exists x, text_frame_offset pr (frame_of (C05.Model.f_instr f) (fst m) so) = Ret x) /\
+          (exists y, json_frame_offsets pr (frame_of (C05.Model.f_instr f) (fst m) so) = Ret y).
+Proof.
+  intros Ha Hin Hcfi.
+  destruct (process_threads_total p cpu a os module_at mma cfi_walk iv pi Ha Hin Hcfi) as [outs [E [F _]]].
+  exists outs. split; [exact E|]. split; [exact F|].
+  split; [exact (requesting_stack_total p cpu a os module_at mma cfi_walk iv pi Ha Hin Hcfi)|].
+  intros o f Ho Hf pr q rf mods Hm Hwf.
+  destruct (Forall2_in_r _ _ _ _ F Ho) as [t [_ [_ [_ [_ [_ [Hi _]]]]]]].
+  rewrite Forall_forall in Hi. specialize (Hi f Hf). unfold instr_u64 in Hi.
+  split; [exact (module_offset_total pr mods _ Hm Hi)|].
+  split; [exact (unloaded_offsets_total pr mods _ Hm Hi)|].
+  intros i m so Hg Hn Hs. exact (render_total_discharged pr q rf mods _ i m so Hm Hi Hwf Hg Hn Hs).
 Qed.
